@@ -378,7 +378,7 @@ Definition do_release (s : state) (id : nat) : option (state * list obs) :=
   | Some (o, true) =>
       Some (s <| counted := map (fun p => if Nat.eqb (o_id (fst p)) id then (fst p, false) else p)
                                 (counted s) |>, [])
-  | _ => None
+  | _ => Some (s, [])   (* nobody is parked under that number: nothing happens *)
   end.
 
 Definition insert_op (s : state) (o : op) : state :=
